@@ -131,3 +131,197 @@ Proof.
   - intros t th Hth. simpl in Hth. rewrite nth_error_map in Hth. destruct (nth_error ops t); inversion Hth; subst.
     simpl. repeat split; auto; intros; try contradiction; discriminate.
 Qed.
+
+(* ---- P3: hook.calls of a proxy counts the threads inside a call through it *)
+Definition jcallpc (p : jpc) : bool :=
+  match p with QTrav | QWaitJ | QInCaller | QRelock | QWaitKnown | QAfterKnown | QCallFinish => true | _ => false end.
+
+Definition jin_px (x : nat) (th : jthread) : bool :=
+  match j_op th with
+  | JCall _ _ => match j_via th with Some y => Nat.eqb x y && jcallpc (j_pc th) | None => false end
+  | _ => false
+  end.
+
+Definition JP3 (c : jconfig) : Prop :=
+  forall x px, nth_error (jproxies c) x = Some px -> jx_calls px = jcount (jin_px x) (jthreads c).
+
+Lemma getx_nth : forall c x px, nth_error (jproxies c) x = Some px -> getx c x = px.
+Proof. intros. unfold getx. apply nth_error_nth. exact H. Qed.
+
+Lemma jcount_zero : forall f l, (forall t th, nth_error l t = Some th -> f th = false) -> jcount f l = 0.
+Proof.
+  induction l as [|a l IH]; intros H; cbn [jcount]; [reflexivity|].
+  rewrite (H 0%nat a eq_refl), IH; [reflexivity|]. intros t th Ht. exact (H (S t) th Ht).
+Qed.
+
+Ltac jpx_cases Hx0 :=
+  repeat progress (autorewrite with prx_simp in Hx0);
+  match type of Hx0 with
+  | nth_error (upd ?x ?p ?l) ?x0 = Some ?px0 =>
+    let b0 := fresh "b0" in let Hb0 := fresh "Hb0" in let Hne := fresh "Hne" in let Hx0' := fresh "Hx0'" in
+    destruct (nth_error_upd_cases _ _ _ _ _ _ Hx0) as [[-> [-> [b0 Hb0]]]|[Hne Hx0']];
+    [rewrite ?(getx_nth _ _ _ Hb0) in *|]
+  | nth_error (?l ++ [?a]) ?x0 = Some ?px0 =>
+    let Hx0' := fresh "Hx0'" in
+    destruct (nth_error_app_new _ _ _ _ _ Hx0) as [Hx0'|[-> ->]]
+  | _ => idtac
+  end.
+
+(* only calls made through a client carry a proxy *)
+Definition JVia (c : jconfig) : Prop :=
+  forall t th, nth_error (jthreads c) t = Some th ->
+    match j_op th with JCall _ _ => True | _ => j_via th = None end.
+
+Lemma JVia_step : forall v c t c', JVia c -> jstep v c t = Some c' -> JVia c'.
+Proof.
+  intros v c t c' HO Hs.
+  unfold jstep in Hs. destruct (nth_error (jthreads c) t) as [th|] eqn:Hth; [|discriminate].
+  pose proof (HO t th Hth) as Hown.
+  junfold Hs. jexplode Hs; inversion Hs; subst; clear Hs.
+  all: unfold resolve_entry, do_known, do_final; goal_matches.
+  all: intros t0 th0 H0; simpl in H0; rewrite ?close_sigs_threads in H0; simpl in H0;
+       destruct (jupd_nth_cases _ _ _ _ _ _ Hth H0) as [[-> ->]|[Hne H0']]; [|exact (HO _ _ H0')].
+  all: simpl; repeat match goal with H : j_op _ = _ |- _ => rewrite H in * end; simpl in *; auto; try congruence.
+  all: destruct (j_op th); auto; congruence.
+Qed.
+
+Lemma JVia_reach : forall v np ops c, jreach v np ops c -> JVia c.
+Proof.
+  intros v np ops c H. induction H as [|c t c' Hr IH Hs]; [|exact (JVia_step v c t c' IH Hs)].
+  intros t th H. simpl in H. rewrite nth_error_map in H. destruct (nth_error ops t) as [o|]; inversion H; subst.
+  destruct o; reflexivity.
+Qed.
+
+Lemma JP3_step : forall v c t c', JV c -> JVia c -> JP3 c -> jstep v c t = Some c' -> JP3 c'.
+Proof.
+  intros v c t c' HV HA HP Hs.
+  jleaves v Hs Hth.
+  all: pose proof (HA t th Hth) as Hvia0.
+  all: goal_matches.
+  all: intros x0 px0 Hx0; jpx_cases Hx0.
+  all: thr_simp Hth.
+  all: first [ rewrite <- (HP _ _ Hb0) | rewrite <- (HP _ _ Hx0') | rewrite <- (HP _ _ Hx0) | idtac ].
+  all: unfold jin_px; cbn [j_op j_pc j_via jgoto jfinish sj_pc sj_cur sj_par sj_path sj_via sj_rest sj_waitx sj_res sj_out];
+       repeat match goal with H : j_pc _ = _ |- _ => rewrite H end;
+       repeat match goal with H : j_op _ = _ |- _ => rewrite H end;
+       repeat match goal with H : j_via _ = _ |- _ => rewrite H end; cbn [jcallpc]; simpl.
+  all: rewrite ?andb_false_r, ?andb_true_r; eqb_all; simpl; try lia.
+  all: try (destruct (j_via th); rewrite ?andb_false_r; simpl; lia).
+  all: try (rewrite jcount_zero; [lia|];
+            intros t1 th1 H1; destruct (V_thr c HV t1 th1 H1) as [_ [_ Hv1]];
+            destruct (j_op th1); auto; destruct (j_via th1) as [y|] eqn:Ey; auto;
+            specialize (Hv1 y eq_refl); destruct (Nat.eqb_spec (length (jproxies c)) y); [lia|reflexivity]).
+  all: destruct (j_op th); simpl; try lia; congruence.
+Qed.
+
+Lemma JP3_reach : forall v np ops c, jreach v np ops c -> JP3 c.
+Proof.
+  intros v np ops c H. induction H as [|c t c' Hr IH Hs].
+  - intros x px Hx. destruct x; discriminate.
+  - exact (JP3_step v c t c' (JV_reach v np ops c Hr) (JVia_reach v np ops c Hr) IH Hs).
+Qed.
+
+(* ---- P2: hook.refs is 0 or 1 and done is closed once refs = 0 and calls = 0 *)
+Definition JP2 (c : jconfig) : Prop :=
+  forall x px, nth_error (jproxies c) x = Some px ->
+    0 <= jx_refs px /\ (jx_target px = None -> jx_rel px = false -> jx_refs px = 1) /\
+    (jx_refs px <= 0 -> jx_calls px = 0 -> jx_done px = true).
+
+Ltac jboolp :=
+  repeat match goal with
+         | H : (_ <? _) = true |- _ => apply Z.ltb_lt in H
+         | H : (_ <? _) = false |- _ => apply Z.ltb_ge in H
+         | H : (_ =? _) = true |- _ => apply Z.eqb_eq in H
+         | H : (_ =? _) = false |- _ => apply Z.eqb_neq in H
+         end.
+
+Lemma JP2_step : forall v c t c', JP3 c -> JP2 c -> jstep v c t = Some c' -> JP2 c'.
+Proof.
+  intros v c t c' H3 HP Hs.
+  jleaves v Hs Hth.
+  all: goal_matches.
+  all: intros x0 px0 Hx0; jpx_cases Hx0.
+  all: try (exact (HP _ _ Hx0)); try (exact (HP _ _ Hx0')).
+  all: try (simpl; repeat split; intros; try lia; try discriminate; fail).
+  all: pose proof (HP _ _ Hb0) as [Ha [Hb Hc]]; pose proof (H3 _ _ Hb0) as Hcnt;
+       match type of Hb0 with nth_error _ ?x = _ =>
+         pose proof (jcount_nonneg (jin_px x) (jthreads c)) as Hnn end.
+  all: simpl; jboolp; repeat split; intros; try lia; try discriminate; try congruence;
+       repeat match goal with
+              | |- context [if ?b then _ else _] => destruct b eqn:?
+              | H : context [if ?b then _ else _] |- _ => destruct b eqn:?
+              end; jboolp;
+       try reflexivity; try lia; try (apply Hc; lia); try (rewrite Hb in *; auto; lia); try congruence.
+Qed.
+
+Lemma JP2_reach : forall v np ops c, jreach v np ops c -> JP2 c.
+Proof.
+  intros v np ops c H. induction H as [|c t c' Hr IH Hs].
+  - intros x px Hx. destruct x; discriminate.
+  - exact (JP2_step v c t c' (JP3_reach v np ops c Hr) IH Hs).
+Qed.
+
+(* ---- P1: a thread waiting for a hook's done has dropped that hook's last reference *)
+Definition JP1 (c : jconfig) : Prop :=
+  forall t th, nth_error (jthreads c) t = Some th ->
+    match j_pc th with
+    | QFulWait | QRelWait => exists px, nth_error (jproxies c) (j_waitx th) = Some px /\ jx_refs px <= 0
+    | _ => True
+    end.
+
+Definition refs_mono (c c' : jconfig) : Prop :=
+  forall x px, nth_error (jproxies c) x = Some px ->
+    exists px', nth_error (jproxies c') x = Some px' /\ jx_refs px' <= jx_refs px.
+
+Lemma refs_mono_upd : forall (l : list jproxy) x p' y px,
+  nth_error l y = Some px -> (forall b0, nth_error l x = Some b0 -> jx_refs p' <= jx_refs b0) ->
+  exists px', nth_error (upd x p' l) y = Some px' /\ jx_refs px' <= jx_refs px.
+Proof.
+  intros l x p' y px Hy Hr. destruct (Nat.eq_dec x y) as [->|Hne].
+  - exists p'. split; [eapply nth_error_upd_same; eauto|auto].
+  - exists px. split; [rewrite nth_error_upd_other; auto|lia].
+Qed.
+
+Lemma refs_mono_step : forall v c t c', JP2 c -> jstep v c t = Some c' -> refs_mono c c'.
+Proof.
+  intros v c t c' H2 Hs.
+  jleaves v Hs Hth; goal_matches.
+  all: intros y px Hy; repeat progress (autorewrite with prx_simp).
+  all: try (exists px; split; [exact Hy|lia]).
+  all: try (exists px; split; [rewrite nth_error_app1; [exact Hy|apply nth_error_Some; congruence]|lia]).
+  all: apply refs_mono_upd; [exact Hy|]; intros b0 Hb0; rewrite ?(getx_nth _ _ _ Hb0) in *; simpl;
+       pose proof (H2 _ _ Hb0) as [Ha _]; jboolp; lia.
+Qed.
+
+Lemma JP1_step : forall v c t c', JV c -> JP2 c -> JP1 c -> jstep v c t = Some c' -> JP1 c'.
+Proof.
+  intros v c t c' HV H2 HP Hs.
+  pose proof (refs_mono_step v c t c' H2 Hs) as Hm.
+  intros t0 th0 H0.
+  unfold jstep in Hs. destruct (nth_error (jthreads c) t) as [th|] eqn:Hth; [|discriminate].
+  destruct (V_thr c HV t th Hth) as [Hrest _].
+  destruct (jstep_frame v c t th c' Hth Hs) as [[th' [Hup _]] _].
+  rewrite Hup in H0. destruct (jupd_nth_cases _ _ _ _ _ _ Hth H0) as [[-> ->]|[Hne H0']].
+  2:{ pose proof (HP t0 th0 H0') as Hold. destruct (j_pc th0); auto;
+        destruct Hold as [px [A B]]; destruct (Hm _ _ A) as [px' [A' B']]; exists px'; split; auto; lia. }
+  (* the stepping thread: it enters a wait right after dropping the reference *)
+  clear H0. junfold Hs. jexplode Hs; inversion Hs; subst; clear Hs.
+  all: unfold resolve_entry, do_known, do_final in *; simpl in Hup; rewrite ?close_sigs_threads in Hup; simpl in Hup.
+  all: repeat match type of Hup with context [match ?x with _ => _ end] => destruct x eqn:? end; simpl in Hup;
+       rewrite ?close_sigs_threads in Hup; simpl in Hup.
+  all: assert (Hth' : nth_error (upd t th' (jthreads c)) t = Some th') by (eapply nth_error_upd_same; eauto);
+       rewrite <- Hup in Hth'; rewrite (nth_error_upd_same _ _ _ _ _ Hth) in Hth'; inversion Hth'; subst th'; clear Hth' Hup.
+  all: cbn [j_pc j_waitx jgoto jfinish sj_pc sj_cur sj_par sj_path sj_via sj_rest sj_waitx sj_res sj_out];
+       repeat match goal with H : j_pc _ = _ |- _ => rewrite H end; try exact I.
+  all: assert (Hn : (n < length (jproxies c))%nat) by (apply Hrest; left; reflexivity);
+       destruct (nth_error (jproxies c) n) as [b0|] eqn:Hb0; [|apply nth_error_None in Hb0; lia];
+       eexists; split; [autorewrite with prx_simp; eapply nth_error_upd_same; exact Hb0|];
+       rewrite ?(getx_nth _ _ _ Hb0) in *; simpl; jboolp; lia.
+Qed.
+
+Lemma JP1_reach : forall v np ops c, jreach v np ops c -> JP1 c.
+Proof.
+  intros v np ops c H. induction H as [|c t c' Hr IH Hs].
+  - intros t th Hth. simpl in Hth. rewrite nth_error_map in Hth. destruct (nth_error ops t); inversion Hth; subst. exact I.
+  - exact (JP1_step v c t c' (JV_reach v np ops c Hr) (JP2_reach v np ops c Hr) IH Hs).
+Qed.
